@@ -9,8 +9,8 @@ PROP = dict(
     design_ref="DESIGN.md §5 C20",
     level_text="TLC enumerates, for each ingestion path (JSON event map via jsoniter+NewPayload, JSON batch via fastjson->AppendJSONValue->UnmarshalMsgpFirstEvent, msgpack batch/peer via "
                "UnmarshalMsgpFirstEvent with the sampler's key fields, OTLP UnmarshalMsgpEventMetadataOnly, Payload.UnmarshalMsg), every subset of a 6-name universe (a sampler key field, a nested-map "
-               "key field, a trace-ID field, a bin-typed key, a reserved meta.* name, an additional attribute) as the client's fields and every sequence of up to 3 (quick) / 4 (thorough) mutating "
-               "calls (ExtractMetadata, MemoizeFields on several key sets, Set of meta.* / attribute / client-named fields) interleaved with the queries, and checks on the model that the forwarded "
+               "key field, a trace-ID field, a bin-typed key, a reserved meta.* name, an additional attribute) as the client's fields and every sequence of up to 3 mutating "
+               "calls after construction (ExtractMetadata, MemoizeFields on several key sets, Set of meta.* / attribute / client-named fields) interleaved with the queries, and checks on the model that the forwarded "
                "map is exactly client fields + added fields (reserved names sent by the client excepted) and that the missing/memoized bookkeeping never hides a field. On the real Payload the "
                "harness attaches typed values from a pool (int64 incl. MinInt64 and int64-format small ints, uint64 incl. MaxUint64, float32, float64 incl. -Inf, bool, empty/unicode/long strings, "
                "bin, nil, arrays, nested maps with a timestamp inside, msgpack timestamp ext -1; JSON: integers beyond 2^53, exponents, -0, escapes, nested), and after every step requires: no "
@@ -21,11 +21,11 @@ PROP = dict(
                "in package types (same calls: AppendJSONValue + UnmarshalMsgpFirstEvent on a batch remainder; MarshalMsg appended to a prefilled buffer), not driven through HTTP. "
                "Reserved metadata names sent by the client are masked (the statement's exception). The single-event msgpack route (vmihailenco decoder into a map) is not covered. "
                "Known deviation ts-reencoded (a msgpack timestamp in a memoized sampler key field leaves as tinylib's private extension 5) is reported as KNOWN-FINDING.",
-    assumptions=["bounded: 6 names, <=4 mutating calls, values from a pool of 16 msgpack / 16 JSON values + nested map + timestamp",
+    assumptions=["bounded: 6 names, construction + <=3 mutating calls (model only: 5), values from a pool of 16 msgpack / 16 JSON values + nested map + timestamp",
                  "application-defined msgpack extension types out of scope (statement)"],
     stages=[
         dict(kind="walk", name="Payload", module="Payload", pkg="types", test="TestVerifC20Payload", harness=["types/c20_payload_test.go"],
-             cfg={"quick": "MC_Payload.cfg", "thorough": "MC_Payload_big.cfg"}, budget={"quick": 40, "thorough": 300}, maxwalk=16),
+             cfg={"quick": "MC_Payload.cfg", "thorough": "MC_Payload_big.cfg"}, budget={"quick": 20, "thorough": 240}, maxwalk=16),
         dict(kind="tlc", name="PayloadIdeal", module="Payload", cfg={"quick": None, "thorough": "MC_Payload_ideal.cfg"}, workers=8),
     ],
 )
